@@ -14,7 +14,7 @@ def xf(throwers):
     return back_xform(['mp_any_of', 'is_flag_active', 'has_no_exception_thrown'], refparams=(), members=['m_event_processing'],
                       methods=['is_flag_active', 'is_end_interrupt_event', 'do_process_event', 'process_event_pool', 'exception_caught'],
                       enums=ENUMS, drop=DROP2, rewrites=RW, throwers=throwers, try_=True)
-P = ['C04', 'C05', 'C11', 'C12', 'C13']
+P = ['C04', 'C05', 'C10', 'C11', 'C12', 'C13']
 UNITS.append(Unit('backmp11.process_event_internal', P, 'backmp11',
     Part(SB, [], 'process_result process_event_internal ( Event const & event , process_info info )'),
     'process_result process_event_internal(fsm_t* self, event_t event, process_info info)', 'evloop_mp11.spec.h',
